@@ -162,14 +162,15 @@ class Api:
             ctx._to_python = tap
         return ctx
 
-    def run(self, fn, wall=20.0, cap=5_000_000, tick=0.0, deadline=None):
+    def run(self, fn, wall=20.0, cap=5_000_000, tick=0.0, deadline=None, keep_clock=False):
         wall = wall * WALL_SCALE
         """Run fn() under the step cap and a wall-clock watchdog; classify the outcome."""
         STEPS.reset(cap=cap, tick=tick, deadline=deadline)
         if tick:
             VCLOCK.on = True
-            VCLOCK.now = 0.0
-            VCLOCK.reads = 0
+            if not keep_clock:          # keep_clock: a later evaluation of a history, virtual time goes on
+                VCLOCK.now = 0.0
+                VCLOCK.reads = 0
         signal.setitimer(signal.ITIMER_REAL, wall)
         try:
             try:
